@@ -27,7 +27,7 @@ def sh(*a, **k):
 def main():
     src = Path(sys.argv[1])
     name = src.name
-    pid = name.split("_")[0]
+    pid = name[:3]
     tier = sys.argv[sys.argv.index("--tier") + 1] if "--tier" in sys.argv else "quick"
     checks = sys.argv[sys.argv.index("--checks") + 1].split(",") if "--checks" in sys.argv else [pid]
     wt = Path(f"/tmp/sv_{name}")
